@@ -565,6 +565,12 @@ fn run_fuzz(spec: &Spec, fz: &FuzzSpec, tier: Tier, seed: u64, violations: &mut 
         if let Ok(rd) = std::fs::read_dir(dir.join("artifacts")) {
             for e in rd.flatten() {
                 let name = e.file_name().to_string_lossy().to_string();
+                if name.starts_with("slow-unit") {
+                    // libFuzzer's report of a unit slower than 10 s wall clock (16 jobs share
+                    // the machine): not a failure of any kind
+                    let _ = std::fs::remove_file(e.path());
+                    continue;
+                }
                 if let Ok(bytes) = std::fs::read(e.path()) {
                     let mut stream = fz.prefix.to_vec();
                     stream.extend_from_slice(&bytes);
